@@ -325,25 +325,37 @@ Proof.
 Qed.
 
 (* ---------------- every operation ---------------- *)
+(* what Order.__init__ guarantees about a submitted order: positive volume, positive time-to-live *)
 Definition valid_op (o : op) : Prop :=
-  match o with OAdd _ _ _ _ v _ => 0 < v | _ => True end.
+  match o with
+  | OAdd _ _ _ _ v ttlv => 0 < v /\ match ttlv with Some k => 0 < k | None => True end
+  | _ => True
+  end.
 
-Theorem step_ok m o m' x : book_ok m -> valid_op o -> step m o = Ok (m', x) -> book_ok m'.
+Theorem step_rec_ok m o m' rs : book_ok m -> valid_op o -> step_rec m o = Ok (m', rs) -> book_ok m'.
 Proof.
-  intros Hm Hv. destruct o; cbn [step]; try discriminate.
+  intros Hm Hv. destruct o; cbn [step_rec]; try discriminate.
   - destruct (add_order m ag mk buy p v ttlv) as [[m1 r]|] eqn:E; [|discriminate]. simpl.
-    intros H; inversion H; subst. eapply add_order_ok; eauto.
+    intros H; inversion H; subst. eapply add_order_ok; eauto. apply Hv.
   - destruct (cancel_order m i) as [[m1 r]|] eqn:E; [|discriminate]. simpl.
     intros H; inversion H; subst. eapply cancel_order_ok; eauto.
-  - destruct (execution m) as [[m1 r]|] eqn:E; [|discriminate]. simpl.
-    intros H; inversion H; subst. eapply execution_ok; eauto.
-  - pose proof (tick_ok m f Hm) as Ht. revert Ht. destruct (tick m f) as [m1 rs]. cbn [fst].
+  - intros H. eapply execution_ok; eauto.
+  - pose proof (tick_ok m f Hm) as Ht. revert Ht. destruct (tick m f) as [m1 rs1]. cbn [fst].
     intros Ht H. inversion H; subst. exact Ht.
   - intros H; inversion H; subst. exact Hm.
   - intros H; inversion H; subst; auto.
   - intros H; inversion H; subst; auto.
   - intros H; inversion H; subst; auto.
 Qed.
+
+Lemma step_inv m o m' x : step m o = Ok (m', x) -> exists rs, step_rec m o = Ok (m', rs).
+Proof.
+  unfold step. destruct (step_rec m o) as [[m1 rs]|]; [|discriminate]. simpl.
+  intros H; inversion H; subst. eauto.
+Qed.
+
+Theorem step_ok m o m' x : book_ok m -> valid_op o -> step m o = Ok (m', x) -> book_ok m'.
+Proof. intros Hm Hv H. destruct (step_inv _ _ _ _ H) as [rs E]. eapply step_rec_ok; eauto. Qed.
 
 Theorem reachable_ok ops : forall m, book_ok m -> Forall valid_op ops -> book_ok (final_state m ops).
 Proof.
